@@ -1568,7 +1568,10 @@ where
                             pending_writes.push(do_write(tx, false));
                             true
                         }
-                        _ => false,
+                        _ => {
+                            item_writers.insert(*id, tx);
+                            false
+                        }
                     }
                 } else {
                     true
